@@ -407,7 +407,8 @@ R.contract(
     # AttributeError, an unusable SubjectPublicKeyInfo makes public_key() raise ValueError / UnsupportedAlgorithm; only
     # InvalidSignature is converted.  Repair: tools/fixes/c05_tls_nonalert2.patch
     requires=["self._peer_certificate is not None", "self.key_schedule is not None", "sigs_known(self._signature_algorithms)"],
-    raises={"AlertDecryptError": "not cv_checked(self, verify)"},
+    # (AlertIllegalParameter: what the repair raises for a key that cannot be used with the algorithm; never on a path that returns)
+    raises={"AlertDecryptError": "not cv_checked(self, verify)", "AlertIllegalParameter": None},
     modifies=[],
     prop=["C11", "C05"],
 )
